@@ -219,6 +219,24 @@ func genCase(t *rapid.T) Case {
 		}
 	}
 	c.Failover = rapid.IntRange(0, 3).Draw(t, "failover") == 0
+	// one round in four is homogeneous: 48..128 small inspected requests that all take the same
+	// path through Olla (e.g. all translated), so that whatever that path pools or reuses is
+	// under contention from requests of its own kind
+	if rapid.IntRange(0, 3).Draw(t, "homogeneous") == 0 {
+		route := rapid.SampledFrom([]string{"anthropic-translated", "anthropic-translated", "anthropic-passthrough", "proxy", "provider-openai"}).Draw(t, "hroute")
+		m := rapid.IntRange(48, 128).Draw(t, "hn")
+		c.Reqs = c.Reqs[:0]
+		for i := 0; i < m; i++ {
+			q := genReq(t, false, true)
+			q.Route = route
+			if strings.HasPrefix(route, "anthropic") {
+				q.Path = "v1/messages"
+			} else if q.Path == "v1/messages" {
+				q.Path = "v1/chat/completions"
+			}
+			c.Reqs = append(c.Reqs, q)
+		}
+	}
 	return c
 }
 
@@ -416,7 +434,7 @@ func runRound(c Case) []ev.Violation {
 	var wg sync.WaitGroup
 	start := make(chan struct{})
 	for i, q := range c.Reqs {
-		nonce := fmt.Sprintf("N%05dx%02d", round%100000, i)
+		nonce := fmt.Sprintf("N%05dx%03d", round%100000, i)
 		body := buildBody(q, nonce)
 		outs[i] = outcome{nonce: nonce, body: body}
 		target := q.prefix() + q.Path
@@ -637,7 +655,7 @@ func runCase(c Case) []ev.Violation {
 
 func TestC01(t *testing.T) {
 	defer stopRigs()
-	rec.SetRule("a case is a round of 1..32 requests released together through the full stack (engine sherpa|olla): route family (proxy, provider, Anthropic passthrough, Anthropic translated) x method x generated path/query x body size class {0, small, ~64 KiB, 1 MiB-1, 1 MiB, 1 MiB+1, 1-4 MiB} x body kind x Content-Length|chunked (generated chunk plan) x delayed tail; in 1 of 4 rounds a refusing endpoint is in rotation, so some requests are dispatched to it first and replayed on a working endpoint; 3 of 4 multi-request rounds mix chunked >1 MiB JSON bodies with delayed tails among small inspected JSON requests. Recording backends are compared per nonce (method, path, raw query, length, SHA-256; translated: model and content ownership). non-trivial = >=2 requests in flight of which >=1 passes the body inspector's buffering path; distinct by (engine, multiset of route/framing/size-class/kind)")
+	rec.SetRule("a case is a round of 1..32 requests released together through the full stack (engine sherpa|olla): route family (proxy, provider, Anthropic passthrough, Anthropic translated) x method x generated path/query x body size class {0, small, ~64 KiB, 1 MiB-1, 1 MiB, 1 MiB+1, 1-4 MiB} x body kind x Content-Length|chunked (generated chunk plan) x delayed tail; in 1 of 4 rounds a refusing endpoint is in rotation, so some requests are dispatched to it first and replayed on a working endpoint; 1 round in 4 is homogeneous (48..128 small requests all on one route family, e.g. all translated); 3 of 4 other multi-request rounds mix chunked >1 MiB JSON bodies with delayed tails among small inspected JSON requests. Recording backends are compared per nonce (method, path, raw query, length, SHA-256; translated: model and content ownership). non-trivial = >=2 requests in flight of which >=1 passes the body inspector's buffering path; distinct by (engine, multiset of route/framing/size-class/kind)")
 	rec.Assume("schedule-dependent: a green run covers the interleavings the harness produced, not all of them; replay repeats the round 40 times")
 	rec.Assume("percent-encoded reserved characters in paths (%2F, %3F) are not generated; paths are compared in decoded form")
 	if ev.IsReplay() {
